@@ -26,6 +26,9 @@ pub struct DocSpec {
     /// no `---` before this document (only honoured when the previous document ended with `...`)
     #[serde(default)]
     pub implicit_start: bool,
+    /// written as `--- <text>` on the marker line and always closed with `...` (root block scalars)
+    #[serde(default)]
+    pub inline: bool,
 }
 
 #[derive(Clone, Debug, Serialize, Deserialize)]
@@ -41,7 +44,16 @@ pub struct StreamCase {
 pub fn build_stream(c: &StreamCase) -> String {
     let mut s = String::new();
     for (i, d) in c.docs.iter().enumerate() {
-        let implicit = i > 0 && d.implicit_start && c.docs[i - 1].end_marker && !d.text.is_empty();
+        if d.inline {
+            s.push_str("--- ");
+            s.push_str(&d.text);
+            if !d.text.ends_with('\n') {
+                s.push('\n');
+            }
+            s.push_str("...\n");
+            continue;
+        }
+        let implicit = i > 0 && d.implicit_start && (c.docs[i - 1].end_marker || c.docs[i - 1].inline) && !d.text.is_empty();
         if (i > 0 || c.start_marker) && !implicit {
             s.push_str("---\n");
         }
@@ -115,10 +127,26 @@ fn alone<T: DeserializeOwned + Debug>(text: &str, opts: &OptVec) -> Outcome {
     lab::canon(guard(|| serde_saphyr::from_str_with_options::<T>(text, opts.to_options())), &mut renders)
 }
 
+/// the document as a text of its own, in the same form in which it appears in the stream
+fn alone_text(d: &DocSpec) -> String {
+    if d.inline {
+        let mut t = format!("--- {}", d.text);
+        if !t.ends_with('\n') {
+            t.push('\n');
+        }
+        t.push_str("...\n");
+        t
+    } else {
+        d.text.clone()
+    }
+}
+
 pub fn classify(target: Target, d: &DocSpec, opts: &OptVec) -> Class {
     if d.alias_of_earlier {
         return Class::Either;
     }
+    let text = alone_text(d);
+    let d = &DocSpec { text, ..d.clone() };
     let (scan_err, skipped) = raw_shape(&d.text);
     if scan_err {
         return Class::Syntax;
@@ -241,7 +269,7 @@ pub fn exec(c: &StreamCase, st: &mut Stats) -> Vec<Viol> {
     // ("trailing garbage after a proper document end marker is ignored"): such streams are not asserted.
     // (The document such an entry point deserializes is the first one of the stream, null-like or not.)
     let tolerated_garbage = (0..c.docs.len().saturating_sub(1)).any(|i| {
-        c.docs[i].end_marker
+        (c.docs[i].end_marker || c.docs[i].inline)
             && matches!(classes[i + 1], Class::Syntax)
             && classes[..i].iter().all(|x| matches!(x, Class::Skipped))
     });
@@ -431,6 +459,7 @@ pub fn kinds_for(target: Target) -> Vec<DocSpec> {
         comment: false,
         alias_of_earlier: false,
         implicit_start: false,
+        inline: false,
     };
     let mut v = vec![
         d("empty", ""),
@@ -493,7 +522,23 @@ pub fn kinds_for(target: Target) -> Vec<DocSpec> {
             d("surplus", "T: [1, one, extra]\n"),
             d("anchor-then-type-error", "T: [&x 5, [not, a, string]]\n"),
         ],
+        Target::Str => vec![
+            d("valid-a", "plain text\n"),
+            d("valid-b", "\"quoted é\"\n"),
+            DocSpec { inline: true, ..d("empty-literal", "|\n") },
+            DocSpec { inline: true, ..d("empty-folded", ">-\n") },
+            DocSpec { inline: true, ..d("literal", "|\n  some text\n") },
+            d("empty-double-quoted", "\"\"\n"),
+            d("empty-single-quoted", "''\n"),
+            d("tagged-str-null", "!!str null\n"),
+            d("anchors", "&x anchored text\n"),
+            DocSpec { alias_of_earlier: true, ..d("alias-earlier", "*x\n") },
+            d("type-early", "[not, a, string]\n"),
+            d("type-map", "a: 1\n"),
+        ],
         _ => vec![
+            DocSpec { inline: true, ..d("empty-literal", "|\n") },
+            d("empty-double-quoted", "\"\"\n"),
             d("valid-a", "a: 1\n"),
             d("valid-b", "- x\n- {y: [1, 2]}\n"),
             d("valid-c", "plain scalar é\n"),
@@ -508,7 +553,7 @@ pub fn kinds_for(target: Target) -> Vec<DocSpec> {
     v
 }
 
-pub const TARGETS: [Target; 6] = [Target::Cfg, Target::VecI, Target::Tup, Target::Map, Target::En, Target::Json];
+pub const TARGETS: [Target; 7] = [Target::Cfg, Target::VecI, Target::Tup, Target::Map, Target::En, Target::Json, Target::Str];
 
 pub fn total(tier: Tier) -> u64 {
     match tier {
@@ -600,7 +645,16 @@ pub fn gen_case(tier: Tier, seed: u64, idx: u64) -> Case {
         docs,
         start_marker,
         chunkings: vec![],
-        opts: if exhaustive || rng.chance(2, 3) { OptVec::default() } else { OptVec::random(&mut rng) },
+        opts: {
+            let mut o = if exhaustive || rng.chance(2, 3) { OptVec::default() } else { OptVec::random(&mut rng) };
+            if rng.chance(1, 4) {
+                // limits that every single document of the alphabet stays under, but two together do not:
+                // alias accounting is per document
+                o.alias_limits.max_total_replayed_events = *rng.pick(&[1usize, 2, 3, 5]);
+                o.alias_limits.max_alias_expansions_per_anchor = *rng.pick(&[1usize, 2, usize::MAX]);
+            }
+            o
+        },
     };
     // options that change per-document results are fine (the model uses the same options), but a
     // disabled budget or snippet setting is irrelevant here
